@@ -850,7 +850,14 @@ pub fn worker(id: &str, tier: &str, w: usize, n: usize) -> WorkerOut {
             };
         }
         if let Some(s) = e2_spec(id, tier) {
-            return crate::e2::run_worker(&s, w, n);
+            // (development aid: MC_ONLY_MODEL=1 runs only the model exploration of C19)
+            let only_model = id == "C19" && std::env::var("MC_ONLY_MODEL").is_ok();
+            let mut out = if only_model { WorkerOut::default() } else { crate::e2::run_worker(&s, w, n) };
+            if id == "C19" {
+                // layer 2: explicit-state exploration of the protocol model
+                crate::pexplore::run_worker(tier, w, n, &mut out);
+            }
+            return out;
         }
     }
     eprintln!("MACHINERY: unknown property {id}");
@@ -897,6 +904,11 @@ pub fn confirm(id: &str, v: &Viol) -> Confirm {
                 _ => Confirm::NotReproduced,
             }
         }
+        #[cfg(feature = "conc")]
+        Some("pmodel") => match (crate::pexplore::replay(&v.case), crate::pexplore::replay(&v.case)) {
+            (Some(Some(a)), Some(Some(b))) if a == b => Confirm::Reproduced,
+            _ => Confirm::NotReproduced,
+        },
         #[cfg(feature = "conc")]
         Some("e2") => {
             let a = crate::e2::replay_case(&v.case, id == "C19");
@@ -955,6 +967,19 @@ pub fn replay(id: &str, path: &str) -> i32 {
                 eprintln!("MACHINERY: cannot interpret replay file {path}");
                 2
             }
+        },
+        #[cfg(feature = "conc")]
+        Some("pmodel") => match crate::pexplore::replay(&v.case) {
+            Some(Some(msg)) => {
+                println!("VIOLATION property={id} replay={path}");
+                println!("  {msg}");
+                1
+            }
+            Some(None) => {
+                println!("replay of {path}: property {id} holds on this model system");
+                0
+            }
+            None => 2,
         },
         #[cfg(feature = "conc")]
         Some("e2") => match crate::e2::replay_case(&v.case, id == "C19") {
